@@ -24,6 +24,17 @@ func main() {
 		os.Exit(cmdList(os.Args[2:]))
 	case "ssa":
 		os.Exit(cmdSSA(os.Args[2:]))
+	case "ghostmods":
+		w, err := loadWorldWithSpecs()
+		if err != nil {
+			fmt.Fprintln(os.Stderr, err)
+			os.Exit(2)
+		}
+		for n, fn := range w.Funcs {
+			if strings.Contains(n, os.Args[2]) {
+				fmt.Println(n, w.ghostMods(fn))
+			}
+		}
 	default:
 		fmt.Fprintln(os.Stderr, "unknown command", os.Args[1])
 		os.Exit(2)
